@@ -201,6 +201,10 @@ func (self *linkedPairs) BuildIndex() {
 	}
 	for i := 0; i < self.size; i++ {
 		p := self.At(i)
+		// NOTICE: for duplicated keys the FIRST pair wins, same as the linear search
+		if _, ok := self.index[p.hash]; ok {
+			continue
+		}
 		self.index[p.hash] = i
 	}
 }
@@ -249,6 +253,11 @@ func (self *linkedPairs) Pop() {
 func (self *linkedPairs) Unset(i int) {
 	if self.index != nil {
 		p := self.At(i)
+		// NOTICE: the entry may belong to an earlier pair with the same key
+		if j, ok := self.index[p.hash]; ok && j != i {
+			self.set(i, Pair{})
+			return
+		}
 		delete(self.index, p.hash)
 	}
 	self.set(i, Pair{})
@@ -310,6 +319,10 @@ func (self *linkedPairs) Get(key string) (*Pair, int) {
 		i, ok := self.index[caching.StrHash(key)]
 		if ok {
 			n := self.At(i)
+			// NOTICE: the index is only a hint, the slot may have been removed since
+			if n == nil {
+				goto linear_search
+			}
 			if n.Key == key {
 				return n, i
 			}
